@@ -2,6 +2,7 @@
 From Coq Require Import List NArith Bool Arith Lia String.
 Import ListNotations.
 Require Import V.lib.Bytes V.lib.Regex V.gen.DesktopRegexes V.models.Desktop.
+Require V.proofs.RegexProofs.
 Open Scope string_scope. Open Scope list_scope. Open Scope N_scope.
 
 (* ------------------------------------------------------------------------------------------ byte-string lemmas *)
@@ -506,6 +507,211 @@ Proof. vm_compute. reflexivity. Qed.
 (* files whose name has a control character never reach the sanitizer *)
 Lemma control_names_skipped i dir file content : has_control file = true -> derive_one i dir file content = None.
 Proof. unfold derive_one. intros ->. destruct (has_suffix lit_dot_desktop file); reflexivity. Qed.
+
+(* ------------------------------------------------------------------------------------------ every output line is allowlisted *)
+Definition byte_ok (c : N) : bool := c <=? 255.
+Definition bytes_ok (s : bytes) : bool := forallb byte_ok s.
+Definition info_ok (i : dinfo) : bool :=
+  bytes_ok (d_mount i) && bytes_ok (d_bindir i) && bytes_ok (d_snap i) && bytes_ok (d_key i) && forallb bytes_ok (d_apps i).
+
+(* no byte class of the expression contains $ *)
+Fixpoint nd_re (r : regex) : bool :=
+  match r with
+  | Empty | Eps => true
+  | Cls rs => negb (in_ranges 36 rs)
+  | Cat a b | Alt a b => nd_re a && nd_re b
+  | Star a => nd_re a
+  end.
+
+Lemma nd_lang r s : RegexProofs.lang r s -> nd_re r = true -> forallb no_dollar s = true.
+Proof.
+  induction 1; cbn [nd_re]; intros Hn; try reflexivity.
+  - cbn. rewrite andb_true_r. unfold no_dollar. apply negb_true_iff in Hn.
+    destruct (N.eqb_spec c 36) as [-> |]; [congruence | reflexivity].
+  - apply andb_true_iff in Hn as [H1 H2]. rewrite forallb_app, IHlang1, IHlang2; auto.
+  - apply andb_true_iff in Hn as [H1 _]. auto.
+  - apply andb_true_iff in Hn as [_ H2]. auto.
+  - rewrite forallb_app, IHlang1, IHlang2; auto.
+Qed.
+
+(* an allowlist alternative is either $-free as a whole, or a $-free expression followed by "anything" *)
+Definition alt_ok (a : regex) : bool :=
+  nd_re a || match a with Cat r t => nd_re r && req t (Star AnyByte) | _ => false end.
+
+Lemma alts_ok : forallb alt_ok valid_line_alts = true.
+Proof. vm_compute. reflexivity. Qed.
+
+Lemma subst_no_dollar m s : forallb no_dollar s = true -> subst_snap m s = s.
+Proof. intros H. rewrite <- (app_nil_r s) at 1. rewrite (subst_prefix m s [] H). apply app_nil_r. Qed.
+
+Lemma in_any c : in_ranges c [(0, 255)] = byte_ok c.
+Proof. unfold byte_ok. destruct c; cbn [in_ranges]; rewrite orb_false_r; reflexivity. Qed.
+
+Lemma lang_any s : bytes_ok s = true -> RegexProofs.lang (Star AnyByte) s.
+Proof.
+  intros H. apply RegexProofs.lang_star_cls. unfold bytes_ok in H. rewrite <- H. clear H.
+  induction s as [|c r IH]; [reflexivity |]. cbn [forallb]. rewrite in_any, IH. reflexivity.
+Qed.
+
+Lemma alt_subst m a line :
+  alt_ok a = true -> RegexProofs.lang a line -> bytes_ok (subst_snap m line) = true ->
+  RegexProofs.lang a (subst_snap m line).
+Proof.
+  unfold alt_ok. intros Ha Hl Hb. apply orb_true_iff in Ha as [Ha | Ha].
+  - rewrite (subst_no_dollar m line (nd_lang a line Hl Ha)). exact Hl.
+  - destruct a; try discriminate. apply andb_true_iff in Ha as [Hn Hq]. apply RegexProofs.req_eq in Hq. subst a2.
+    apply RegexProofs.lang_cat_inv in Hl as (p & rest & -> & Hp & _).
+    pose proof (nd_lang a1 p Hp Hn) as Hd. rewrite (subst_prefix m p rest Hd) in *.
+    constructor; [exact Hp |]. apply lang_any. unfold bytes_ok in *. rewrite forallb_app in Hb.
+    apply andb_true_iff in Hb as [_ Hb]. exact Hb.
+Qed.
+
+Lemma replace_all_bytes_ok old m : bytes_ok m = true -> forall s k, bytes_ok s = true -> bytes_ok (replace_all old m k s) = true.
+Proof.
+  intros Hm. unfold bytes_ok in *. induction s as [|c r IH]; intros k Hs; [reflexivity |].
+  cbn in Hs. apply andb_true_iff in Hs as [Hc Hr]. cbn [replace_all]. destruct k.
+  - destruct (has_prefix old (c :: r)).
+    + rewrite forallb_app, Hm. apply IH. exact Hr.
+    + cbn. rewrite Hc. apply IH. exact Hr.
+  - apply IH. exact Hr.
+Qed.
+
+Lemma valid_line_subst m line :
+  valid_line line = true -> bytes_ok m = true -> bytes_ok line = true -> valid_line (subst_snap m line) = true.
+Proof.
+  unfold valid_line. intros Hv Hm Hl. apply existsb_exists in Hv as (a & Hin & Ha).
+  apply existsb_exists. exists a. split; [exact Hin |].
+  apply RegexProofs.rmatch_lang. apply RegexProofs.rmatch_lang in Ha.
+  apply alt_subst; [| exact Ha | apply replace_all_bytes_ok; assumption].
+  pose proof alts_ok as H. rewrite forallb_forall in H. apply H. exact Hin.
+Qed.
+
+(* a line that starts with an allowlisted key is allowlisted *)
+Lemma key_prefix_valid key y :
+  existsb (req (search_r (Lit key))) valid_line_alts = true -> bytes_ok y = true -> valid_line (key ++ y) = true.
+Proof.
+  intros He Hy. apply existsb_exists in He as (a & Hin & Ha). apply RegexProofs.req_eq in Ha. subst a.
+  unfold valid_line. apply existsb_exists. exists (search_r (Lit key)). split; [exact Hin |].
+  apply RegexProofs.rmatch_lang. unfold search_r. constructor; [apply RegexProofs.lang_lit; reflexivity | apply lang_any; exact Hy].
+Qed.
+
+(* --- the bytes of everything the loop body writes are bytes *)
+Lemma ok_app a b : bytes_ok (a ++ b) = bytes_ok a && bytes_ok b.
+Proof. apply forallb_app. Qed.
+Lemma ok_skipn k : forall s, bytes_ok s = true -> bytes_ok (skipn k s) = true.
+Proof. unfold bytes_ok. induction k; intros [|c r] H; cbn; auto. cbn in H. apply andb_true_iff in H as [_ H]. auto. Qed.
+Lemma ok_flat_map (f : N -> bytes) s : (forall c, byte_ok c = true -> bytes_ok (f c) = true) -> bytes_ok s = true -> bytes_ok (flat_map f s) = true.
+Proof.
+  intros Hf. unfold bytes_ok in *. induction s as [|c r IH]; intros H; [reflexivity |].
+  cbn in H. apply andb_true_iff in H as [Hc Hr]. cbn [flat_map]. rewrite forallb_app, (Hf c Hc), (IH Hr). reflexivity.
+Qed.
+Lemma ok_split_first c : forall s a b, split_first c s = Some (a, b) -> bytes_ok s = true -> bytes_ok b = true.
+Proof.
+  unfold bytes_ok. induction s as [|x r IH]; intros a b; cbn; [discriminate |].
+  intros H Hs. apply andb_true_iff in Hs as [_ Hr]. destruct (x =? c).
+  - injection H as _ <-. exact Hr.
+  - destruct (split_first c r) as [[a' b'] |]; [| discriminate]. injection H as _ <-. eapply IH; [reflexivity | exact Hr].
+Qed.
+Lemma ok_after_eq line : bytes_ok line = true -> bytes_ok (after_eq line) = true.
+Proof. unfold after_eq. intros H. destruct (split_first 61 line) as [[a b] |] eqn:E; [eapply ok_split_first; eassumption | reflexivity]. Qed.
+
+Lemma ok_quote arg : bytes_ok arg = true -> bytes_ok (quote_exec_arg arg) = true.
+Proof.
+  intros H. unfold quote_exec_arg.
+  assert (Hp : bytes_ok (pdouble arg) = true).
+  { apply ok_flat_map; [| exact H]. intros c Hc. destruct (c =? 37); cbn; rewrite ?Hc; reflexivity. }
+  destruct (existsb is_reserved (pdouble arg)); cbn [negb]; [| exact Hp].
+  rewrite !ok_app. cbn [bytes_ok forallb]. change (byte_ok 34) with true. cbn [andb]. rewrite andb_true_r.
+  apply ok_flat_map; [| exact Hp]. intros c Hc. unfold esc.
+  destruct ((c =? 34) || (c =? 96) || (c =? 36) || (c =? 92)); cbn; rewrite Hc; reflexivity.
+Qed.
+
+Lemma ok_instance snap key : bytes_ok snap = true -> bytes_ok key = true -> bytes_ok (instance_name snap key) = true.
+Proof. intros Hs Hk. unfold instance_name. destruct (is_nil_b key); [exact Hs |]. rewrite !ok_app, Hs, Hk. reflexivity. Qed.
+
+Lemma info_ok_parts i : info_ok i = true ->
+  bytes_ok (d_mount i) = true /\ bytes_ok (d_bindir i) = true /\ bytes_ok (d_snap i) = true /\ bytes_ok (d_key i) = true /\
+  forall a, In a (d_apps i) -> bytes_ok a = true.
+Proof.
+  unfold info_ok. intros H. apply andb_true_iff in H as [H H5]. apply andb_true_iff in H as [H H4].
+  apply andb_true_iff in H as [H H3]. apply andb_true_iff in H as [H1 H2].
+  repeat split; auto. intros a Ha. rewrite forallb_forall in H5. auto.
+Qed.
+
+Lemma ok_wrapper i a : info_ok i = true -> bytes_ok a = true -> bytes_ok (wrapper i a) = true.
+Proof.
+  intros Hi Ha. destruct (info_ok_parts i Hi) as (_ & Hb & Hs & Hk & _).
+  unfold wrapper, join_snap_app. rewrite !ok_app, Hb. cbn [bytes_ok forallb]. change (byte_ok 47) with true. cbn [andb].
+  destruct (beq (d_snap i) a); [apply ok_instance; assumption |].
+  rewrite !ok_app, (ok_instance _ _ Hs Hk), Ha. reflexivity.
+Qed.
+
+Lemma ok_exec_env df : bytes_ok df = true -> bytes_ok (exec_env df) = true.
+Proof.
+  intros H. unfold exec_env. rewrite !ok_app. rewrite ok_quote by (rewrite ok_app, H; reflexivity). reflexivity.
+Qed.
+
+Lemma ok_exec_loop i df line cmd : info_ok i = true -> bytes_ok df = true -> bytes_ok line = true ->
+  forall apps b, (forall a, In a apps -> bytes_ok a = true) -> exec_loop i df line cmd apps = Some b -> bytes_ok b = true.
+Proof.
+  intros Hi Hd Hl. induction apps as [|a apps IH]; intros b Ha H; [discriminate |].
+  cbn [exec_loop] in H. assert (Hw : bytes_ok (wrapper i a) = true) by (apply ok_wrapper; [exact Hi | apply Ha; left; reflexivity]).
+  destruct (beq cmd (valid_cmd i a)).
+  - replace b with (lit_exec ++ exec_env df ++ wrapper i a) by congruence.
+    rewrite !ok_app, (ok_exec_env df Hd), Hw. reflexivity.
+  - destruct (has_prefix (valid_cmd i a ++ [32]) cmd).
+    + replace b with (lit_exec ++ exec_env df ++ wrapper i a ++ skipn (List.length lit_exec + List.length (valid_cmd i a)) line) by congruence.
+      rewrite !ok_app, (ok_exec_env df Hd), Hw, (ok_skipn _ line Hl). reflexivity.
+    + apply (IH b); [intros x Hx; apply Ha; right; exact Hx | exact H].
+Qed.
+
+Lemma ok_process_line i df line b :
+  info_ok i = true -> bytes_ok df = true -> bytes_ok line = true -> process_line i df line = Some b -> bytes_ok b = true.
+Proof.
+  intros Hi Hd Hl. destruct (info_ok_parts i Hi) as (_ & _ & Hs & Hk & Happs).
+  assert (Icon : forall l1 b1, bytes_ok l1 = true -> rewrite_icon i l1 = Some b1 -> bytes_ok b1 = true).
+  { intros l1 b1 H1. unfold rewrite_icon.
+    destruct (existsb (N.eqb 47) (after_eq l1)).
+    - destruct (negb (has_prefix lit_snapdir (after_eq l1))); [discriminate |].
+      destruct (negb (clean_same (after_eq l1))); [discriminate |]. intros H. injection H as <-. exact H1.
+    - destruct (has_prefix (lit_snapdot ++ d_snap i ++ [46]) (after_eq l1)).
+      + intros H.
+        replace b1 with (lit_icon ++ lit_snapdot ++ instance_name (d_snap i) (d_key i) ++ [46] ++
+                         skipn (List.length (lit_snapdot ++ d_snap i ++ [46])) (after_eq l1)) by congruence.
+        rewrite !ok_app, (ok_instance _ _ Hs Hk), (ok_skipn _ _ (ok_after_eq l1 H1)). reflexivity.
+      + destruct (has_prefix lit_snapdot (after_eq l1)); [discriminate |]. intros H. injection H as <-. exact H1. }
+  unfold process_line. destruct (negb (valid_line line)); [discriminate |].
+  destruct (has_prefix lit_exec line).
+  - unfold rewrite_exec.
+    destruct (exec_loop i df line (after_eq line) (d_apps i)) as [l1 |] eqn:E.
+    + pose proof (ok_exec_loop i df line _ Hi Hd Hl _ _ Happs E) as H1.
+      destruct (has_prefix lit_icon l1); [apply Icon; exact H1 | intros H; injection H as <-; exact H1].
+    + destruct (existsb (beq (trim_ext (base df))) (d_apps i)) eqn:Ex; [| discriminate].
+      apply existsb_exists in Ex as (a & Hin & Hbeq). apply beq_eq in Hbeq. rewrite Hbeq.
+      assert (H1 : bytes_ok (lit_exec ++ exec_env df ++ wrapper i a) = true).
+      { rewrite !ok_app, (ok_exec_env df Hd), (ok_wrapper i a Hi (Happs a Hin)). reflexivity. }
+      destruct (has_prefix lit_icon (lit_exec ++ exec_env df ++ wrapper i a)); [apply Icon; exact H1 | intros H; injection H as <-; exact H1].
+  - destruct (has_prefix lit_icon line); [apply Icon; exact Hl | intros H; injection H as <-; exact Hl].
+Qed.
+
+(* every line of the sanitized file is accepted by the allowlist expression, or is the inserted instance line *)
+Theorem output_lines_allowlisted i df lines l :
+  info_ok i = true -> bytes_ok df = true -> Forall (fun x => bytes_ok x = true) lines ->
+  In l (sanitize_lines i df lines) -> valid_line l = true \/ l = xsnap_line i.
+Proof.
+  intros Hi Hd Hls Hin. destruct (info_ok_parts i Hi) as (Hm & _).
+  apply output_lines in Hin as [-> | (line & b & Hline & Hp & -> & Hv & Hc)]; [right; reflexivity | left].
+  rewrite Forall_forall in Hls. pose proof (Hls line Hline) as Hl.
+  pose proof (ok_process_line i df line b Hi Hd Hl Hp) as Hb.
+  assert (Hsb : bytes_ok (subst_snap (d_mount i) b) = true) by (apply replace_all_bytes_ok; assumption).
+  destruct Hc as [[-> _] | [[_ (ap0 & rest & _ & -> & _)] | (_ & _ & Hic)]].
+  - apply valid_line_subst; assumption.
+  - rewrite (subst_prefix (d_mount i) lit_exec _ eq_refl) in *. apply key_prefix_valid; [vm_compute; reflexivity |].
+    rewrite ok_app in Hsb. apply andb_true_iff in Hsb as [_ Hsb]. exact Hsb.
+  - apply has_prefix_spec in Hic. rewrite Hic in *.
+    rewrite (subst_prefix (d_mount i) lit_icon _ eq_refl) in *. apply key_prefix_valid; [vm_compute; reflexivity |].
+    rewrite ok_app in Hsb. apply andb_true_iff in Hsb as [_ Hsb]. exact Hsb.
+Qed.
 
 (* the allowlist in the source is the pinned specification list (re-checked against the regenerated list on every run) *)
 Lemma allowlist_pinned : valid_line_alts = spec_line_alts.
